@@ -109,7 +109,17 @@ def main():
         'by_family': merge([s['by_family'] for s in summaries]),
         'by_size': merge([s['by_n'] for s in summaries]),
         'by_nprocs': merge([s['by_nprocs'] for s in summaries]),
-        'by_strategy': merge([s['by_strategy'] for s in summaries]),
+        'by_strategy': {{'0': 'uniform', '1': 'sticky', '2': 'pct', '3': 'stall (slow node: victim frozen after a chosen event)', '4': 'serial'}.get(k, k): v
+                        for k, v in merge([s['by_strategy'] for s in summaries]).items()},
+        'fault_kinds': {
+            'allocation_failure_fired': merge([s['faults_fired'] for s in summaries]).get('alloc_fail_fired', 0),
+            'thread_creation_failure_fired': merge([s['faults_fired'] for s in summaries]).get('thread_create_fail_fired', 0),
+            'abort_path_taken_under_fault': merge([s['probes'] for s in summaries]).get('abort_under_fault', 0),
+            'storage_estimate_exceeded_diagnostic': merge([s['probes'] for s in summaries]).get('abort_storage_exceeded', 0),
+            'stall_strategy_runs': merge([s['by_strategy'] for s in summaries]).get('3', 0),
+            'caller_workspace_calls': merge([s['probes'] for s in summaries]).get('user_workspace_calls', 0),
+            'not_applicable_here': 'message loss/duplication/reordering, partitions, crash-restart with durable state, clock skew, torn writes, full disks: the library has no network, disk, durable state, timer or retry for them to act on',
+        },
         'co_observed_other_properties': co_observed,
         'known_findings_met': known_lines,
         'components': COMPONENTS,
